@@ -13,7 +13,9 @@ Case shape:
 Value descriptions (JSON):
   ["m"] missing marker | ["n"] None | ["b", 0|1] | ["i", int] | ["f", m, e] (the float m / 2**e)
   | ["s", text] | ["l", sym, [v...]] | ["t", [v...]] | ["d", sym, [[k, v]...]] (k an atom)
-  | ["o", class index, [[["s", field], v]...]]      (sym = 1: pg.List / pg.Dict, 0: list / dict)
+  | ["o", class index, [[["s", field], v]...]]      (sym = 1: pg.List / pg.Dict, 0: list / dict,
+  2 (dicts): pg.Dict bound to a schema `pg.typing.Dict([(k, Any())...])` of its own keys in this
+  order; objects of a class with a variable-key schema list their keyword fields in call order)
 
 Implementation observables (public API only): pg.eq / pg.ne / pg.lt / pg.gt / pg.hash, `==`, `!=`,
 `hash()` on objects of classes that opt into symbolic comparison, sorted(key=cmp_to_key(...)).
@@ -37,9 +39,21 @@ CLASSES = [
     ('N', ['x'], None, False),           # does not opt into symbolic comparison
     ('Q', ['x'], None, True),            # Q (6) and Q (7): two distinct classes with one __qualname__
     ('Q', ['x'], None, True),
+    # classes with a variable-key schema: (name, declared fields, base, opt-in, True)
+    ('K', [], None, True, True),          # pg.Object with pg.typing.StrKey() fields
+    ('call', ['fn'], None, True, True),   # symbolized function  call(fn, **kwargs)
+    ('Node', [], None, False, True),      # symbolized class     Node(**kwargs); opt-out by default
 ]
 SAME_QUALNAME = (6, 7)
-QUALS = ['_mk_env.<locals>.' + n for n in 'ABCDEN'] + ['_mk_env.<locals>.mk_q.<locals>.Q'] * 2
+QUALS = (['_mk_env.<locals>.' + n for n in 'ABCDEN'] + ['_mk_env.<locals>.mk_q.<locals>.Q'] * 2
+         + ['_mk_env.<locals>.K', '_mk_env.<locals>.call', 'Node'])
+
+
+def is_dyn(c):
+  return len(CLASSES[c]) > 4 and CLASSES[c][4]
+
+
+DYN = [int(is_dyn(c)) for c in range(len(CLASSES))]
 
 _ENV = None
 
@@ -80,10 +94,26 @@ def _mk_env():
       pass
     return Q
 
-  classes = [A, B, C, D, E, N, mk_q(), mk_q()]
-  for c, (name, fields, _, sc) in zip(classes, CLASSES):
-    assert c.__name__ == name and list(c.__schema__.keys()) == fields, (c, list(c.__schema__.keys()))
+  @pg.members([(pg.typing.StrKey(), pg.typing.Any())])
+  class K(pg.Object):
+    pass
+
+  @pg.symbolize
+  def call(fn, **kwargs):
+    return fn, kwargs
+
+  @pg.symbolize
+  class Node:
+    def __init__(self, **kwargs):
+      self.kwargs = kwargs
+
+  classes = [A, B, C, D, E, N, mk_q(), mk_q(), K, call, Node]
+  for c, spec in zip(classes, CLASSES):
+    name, fields, sc = spec[0], spec[1], spec[3]
+    declared = [str(k) for k in c.__schema__.keys() if k.is_const]
+    assert c.__name__ == name and declared == fields, (c, declared)
     assert c.use_symbolic_comparison == sc
+    assert (c.__schema__.dynamic_field is not None) == bool(len(spec) > 4 and spec[4]), c
   assert [c.__qualname__ for c in classes] == QUALS, [c.__qualname__ for c in classes]
   return {'pg': pg, 'classes': classes}
 
@@ -163,6 +193,8 @@ def normalize(d, under_sym=False, in_tuple=False):
       if any(atom_eq(k, k2) for k2, _ in kvs):
         continue
       kvs.append([k, v])
+    if d[1] == 2 and kvs and all(k[0] == 's' and k[1].isidentifier() for k, _ in kvs):
+      sym = 2        # bound to the schema of its own keys (kept below symbolic parents as well)
     return ['d', sym, kvs]
   if t == 'o':
     c = d[1]
@@ -176,6 +208,12 @@ def normalize(d, under_sym=False, in_tuple=False):
       if v == ['m']:
         v = ['n']
       kvs.append([['s', f], v])
+    if is_dyn(c):      # keyword fields, in the order given
+      for k, v in d[2]:
+        v = normalize(v, True, in_tuple)
+        if (k[0] == 's' and k[1].isidentifier() and k[1] not in fields and v != ['m']
+            and not any(k == k2 for k2, _ in kvs)):
+          kvs.append([['s', k[1]], v])
     return ['o', c, kvs]
   raise ValueError(d)
 
@@ -197,11 +235,17 @@ def build(d, e):
     return d[1]
   if t == 'l':
     xs = [build(x, e) for x in d[2]]
+    if typed_list(d):
+      # a list of dicts bound to one schema: the other way to get them (element spec of the list)
+      spec = pg.typing.Dict([(k[1], pg.typing.Any()) for k, _ in d[2][0][2]])
+      return pg.List([dict(x) for x in xs], value_spec=pg.typing.List(spec))
     return pg.List(xs) if d[1] else xs
   if t == 't':
     return tuple(build(x, e) for x in d[1])
   if t == 'd':
     kv = {build(k, e): build(v, e) for k, v in d[2]}
+    if d[1] == 2:
+      return pg.Dict(kv, value_spec=pg.typing.Dict([(k[1], pg.typing.Any()) for k, _ in d[2]]))
     return pg.Dict(kv) if d[1] else kv
   if t == 'o':
     return e['classes'][d[1]](**{k[1]: build(v, e) for k, v in d[2]})
@@ -308,8 +352,30 @@ def has_dict(d):
 # writes, and whichever write path (notifying or not) produced the contents.
 # ------------------------------------------------------------------------------------------
 
+def typed_list(d):
+  """A pg.List that `build` binds to an element schema (all elements dicts bound to one schema)."""
+  return (d[0] == 'l' and d[1] and d[2]
+          and all(x[0] == 'd' and x[1] == 2 and [k for k, _ in x[2]] == [k for k, _ in d[2][0][2]] for x in d[2]))
+
+
+def untype_lists(d):
+  """The same value with no list bound to an element schema (for values that are written to: a
+  bound list would reject most writes)."""
+  t = d[0]
+  if t == 'l':
+    xs = [untype_lists(x) for x in d[2]]
+    if typed_list(['l', d[1], xs]):
+      xs[0] = ['d', 1, xs[0][2]]
+    return ['l', d[1], xs]
+  if t == 't':
+    return ['t', [untype_lists(x) for x in d[1]]]
+  if t in ('d', 'o'):
+    return [t, d[1], [[k, untype_lists(v)] for k, v in d[2]]]
+  return d
+
+
 def is_sym_node(d):
-  return (d[0] in ('l', 'd') and d[1] == 1) or d[0] == 'o'
+  return (d[0] in ('l', 'd') and d[1] >= 1) or d[0] == 'o'
 
 
 def children(d):
@@ -504,7 +570,7 @@ def describe_value(v, e):
   if isinstance(v, list):
     return ['l', 0, [D(x) for x in v]]
   if isinstance(v, pg.Dict):
-    return ['d', 1, [[D(k), D(x)] for k, x in v.sym_items()]]
+    return ['d', 2 if v.value_spec is not None else 1, [[D(k), D(x)] for k, x in v.sym_items()]]
   if isinstance(v, dict):
     return ['d', 0, [[D(k), D(x)] for k, x in v.items()]]
   if isinstance(v, pg.Object):
@@ -571,13 +637,16 @@ class Gen:
       return ['l', int(r.chance(0.7)), [sub() for _ in range(r.below(4))]]
     if k < 7:
       plain = r.chance(0.3)
+      if not plain and r.chance(0.25):     # bound to a schema of str keys
+        return ['d', 2, [[['s', f], sub()] for f in r.shuffle(KEYS)[:r.randint(1, 3)]]]
       return ['d', 0 if plain else 1, [[self.key(plain), sub()] for _ in range(r.below(4))]]
     if k < 9:
       if malformed:
         return ['t', [sub() for _ in range(r.below(4))]]
       return ['t', [self.tuple_elem() for _ in range(r.below(4))]]
-    c = r.weighted([(5, 0), (2, 1), (2, 2), (2, 3), (2, 4), (1, 5)])
-    return ['o', c, [[['s', f], sub()] for f in CLASSES[c][1]]]
+    c = r.weighted([(5, 0), (2, 1), (2, 2), (2, 3), (2, 4), (1, 5), (2, 8), (2, 9), (1, 10)])
+    kw = r.shuffle(KEYS)[:r.below(4)] if is_dyn(c) else []
+    return ['o', c, [[['s', f], sub()] for f in CLASSES[c][1] + kw]]
 
   # -- variants ---------------------------------------------------------------------------
   def positions(self, d, pred):
@@ -640,14 +709,17 @@ class Gen:
         return None
       return self.replace(d, r.choice(ps), self.alias_num)
     if kind == 'permute':
-      ps = self.positions(d, lambda x: x[0] == 'd' and len(x[2]) > 1)
+      perm = lambda x: (x[0] == 'd' and len(x[2]) > 1) or (
+          x[0] == 'o' and is_dyn(x[1]) and len(x[2]) - len(CLASSES[x[1]][1]) > 1)
+      ps = self.positions(d, perm)
       if not ps:
         return None
       def f(x):
-        kvs = r.shuffle(x[2])
-        if kvs == x[2]:
+        n0 = len(CLASSES[x[1]][1]) if x[0] == 'o' else 0
+        kvs = r.shuffle(x[2][n0:])
+        if kvs == x[2][n0:]:
           kvs = kvs[1:] + kvs[:1]
-        return ['d', x[1], kvs]
+        return [x[0], x[1], x[2][:n0] + kvs]
       if r.chance(0.6):
         return self.replace(d, r.choice(ps), f)
 
@@ -657,11 +729,9 @@ class Gen:
           return ['l', x[1], [rec(y) for y in x[2]]]
         if t == 't':
           return ['t', [rec(y) for y in x[1]]]
-        if t == 'o':
-          return ['o', x[1], [[k, rec(v)] for k, v in x[2]]]
-        if t == 'd':
-          y = ['d', x[1], [[k, rec(v)] for k, v in x[2]]]
-          return f(y) if len(y[2]) > 1 else y
+        if t in ('d', 'o'):
+          y = [t, x[1], [[k, rec(v)] for k, v in x[2]]]
+          return f(y) if perm(y) else y
         return x
       return rec(d)
     if kind == 'leaf':
@@ -716,13 +786,30 @@ class Gen:
       ps = self.positions(d, lambda x: x[0] in ('l', 'd'))
       if not ps:
         return None
-      return self.replace(d, r.choice(ps), lambda x: [x[0], 1 - x[1], x[2]])
+      return self.replace(d, r.choice(ps), lambda x: [
+          x[0], r.choice([k for k in ((0, 1, 2) if x[0] == 'd' else (0, 1)) if k != x[1]]), x[2]])
+    if kind == 'rename':     # one key of a dict / keyword field of an object gets another name
+      ren = lambda x: (x[0] == 'd' and x[2] and any(k[0] == 's' for k, _ in x[2])) or (
+          x[0] == 'o' and is_dyn(x[1]) and len(x[2]) > len(CLASSES[x[1]][1]))
+      ps = self.positions(d, ren)
+      if not ps:
+        return None
+
+      def f(x):
+        n0 = len(CLASSES[x[1]][1]) if x[0] == 'o' else 0
+        idx = r.choice([i for i in range(n0, len(x[2])) if x[2][i][0][0] == 's'])
+        used = [k[1] for k, _ in x[2] if k[0] == 's']
+        new = r.choice([k for k in KEYS + ['z', 'w'] if k not in used])
+        kvs = [list(kv) for kv in x[2]]
+        kvs[idx] = [['s', new], kvs[idx][1]]
+        return [x[0], x[1], kvs]
+      return self.replace(d, r.choice(ps), f)
     if kind == 'fresh':
       return self.val(2)
     raise AssertionError(kind)
 
   KINDS = [(14, 'same'), (14, 'alias'), (22, 'permute'), (20, 'leaf'), (8, 'append'), (4, 'drop'),
-           (8, 'subclass'), (8, 'flip'), (4, 'fresh')]
+           (8, 'subclass'), (10, 'flip'), (6, 'rename'), (4, 'fresh')]
 
   def related(self, d):
     for _ in range(6):
@@ -730,10 +817,35 @@ class Gen:
       v = self.variant(d, kind)
       if v is not None:
         v = normalize(v)
-        if kind in ('alias', 'permute', 'flip') and v == d:
+        if kind in ('alias', 'permute', 'flip', 'rename') and v == d:
           continue
         return kind, v
     return 'same', json.loads(json.dumps(d))
+
+  def kw_case(self, n):
+    """Related values whose base is an object of a class with a variable-key schema, or a dict bound
+    to a schema, holding 1-3 keyword fields."""
+    r = self.r
+    self.tuple_kind = r.choice(['num', 'num', 'str'])
+    keys = r.shuffle(KEYS)[:r.randint(1, 3)]
+    sub = lambda: self.val(r.below(2)) if r.chance(0.4) else self.num()
+    if r.chance(0.7):
+      c = r.choice([8, 9, 9, 10])
+      base = ['o', c, [[['s', f], sub()] for f in CLASSES[c][1] + keys]]
+    else:
+      base = ['d', 2, [[['s', f], sub()] for f in keys]]
+    if r.chance(0.3):
+      base = r.choice([['l', 1, [base]], ['o', 0, [[['s', 'x'], base]]], ['d', 1, [[['s', 'a'], base]]]])
+    base = normalize(base)
+    vals, fam = [base], []
+    for i in range(n - 1):
+      src = vals[-1] if (i == 0 or r.chance(0.5)) else vals[0]
+      kind = r.weighted([(5, 'permute'), (3, 'rename'), (3, 'flip'), (3, 'leaf'), (1, 'same'), (1, 'append')])
+      v = self.variant(src, kind)
+      v = normalize(v) if v is not None else json.loads(json.dumps(src))
+      fam.append(kind)
+      vals.append(v)
+    return {'vals': vals, 'fam': 'kw+' + '+'.join(fam)}
 
   def case(self, n, malformed=False):
     r = self.r
@@ -757,7 +869,7 @@ class Gen:
     """A value to write into a symbolic node."""
     r = self.r
     v = self.atom(False) if r.chance(0.6) else self.val(r.randint(1, 2))
-    return normalize(v, True, in_tuple)
+    return untype_lists(normalize(v, True, in_tuple))
 
   def gen_op(self, cur):
     """One write on a random symbolic node of `cur` (None if there is none)."""
@@ -772,24 +884,29 @@ class Gen:
     skip = lambda: r.choice([None, None, 1, 1, 0])
     if node[0] == 'o':
       fields = [k for k, _ in node[2]]
-      if r.chance(0.3):
+      if is_dyn(node[1]):       # a keyword field may be new
+        new = [['s', k] for k in KEYS if ['s', k] not in fields]
+        if new and (not fields or r.chance(0.3)):
+          fields = fields + [r.choice(new)]
+      if r.chance(0.3) and CLASSES[node[1]][0] != 'Node':   # (Node: attributes are not symbolic fields)
         op.update(kind='setattr', a={'k': r.choice(fields), 'v': W()})
       else:
         ks = r.shuffle(fields)[:r.randint(1, min(2, len(fields)))]
         op.update(kind='rebind', a={'kvs': [[k, W()] for k in ks]}, skip=skip())
     elif node[0] == 'd':
       old = [k for k, _ in node[2]]
+      bound = node[1] == 2      # bound to a schema: the key set is fixed
 
       def key(rebindable=False):
         for _ in range(8):
-          k = r.choice(old) if old and r.chance(0.5) else self.key(False)
+          k = r.choice(old) if old and (bound or r.chance(0.5)) else self.key(False)
           if rebindable and k[0] not in ('s', 'i'):
             continue
           if k in old or not any(atom_eq(k, k2) for k2 in old):
             return k
         return ['s', 'n%d' % len(old)]
-      kind = r.weighted([(4, 'set'), (2, 'setattr'), (2, 'del'), (1, 'pop'), (4, 'update'), (4, 'rebind'),
-                         (1, 'clear')])
+      kind = r.weighted([(4, 'set'), (2, 'setattr'), (0 if bound else 2, 'del'), (0 if bound else 1, 'pop'),
+                         (4, 'update'), (4, 'rebind'), (0 if bound else 1, 'clear')])
       if kind in ('del', 'pop') and not old:
         kind = 'set'
       if kind == 'set':
@@ -844,7 +961,8 @@ class Gen:
     r = self.r
     self.tuple_kind = r.choice(['num', 'num', 'str'])
     score = lambda d: sum(2 if t['under_obj'] else 1 for t in sym_targets(d))
-    pre = max((normalize(self.val(r.randint(2, 3), False, top=True)) for _ in range(4)), key=score)
+    pre = max((untype_lists(normalize(self.val(r.randint(2, 3), False, top=True))) for _ in range(4)),
+              key=score)
     if not sym_targets(pre):
       pre = normalize(['o', 0, [[['s', 'x'], ['l', 1, [self.num(), self.num()]]],
                                 [['s', 'y'], ['d', 1, [[['s', 'a'], self.atom(False)]]]]]])
@@ -939,6 +1057,11 @@ class C06(Prop):
           'value one of: same value rebuilt, numeric alias, key order permuted, one leaf changed, element '
           'appended / dropped, subclass instance, symbolic/plain flip, fresh value; ~8 % malformed stream '
           '(tuples with arbitrary elements); two classes with one __qualname__ in a dedicated stream; '
+          'pg.Dict bound to a schema of its own keys (also as elements of a list bound to an element schema, as '
+          'object fields) against schema-less pg.Dict / plain dicts (flip); objects of three classes with a '
+          'variable-key schema (pg.Object with StrKey fields, symbolized function call(fn, **kwargs), '
+          'symbolized class Node(**kwargs)) with the keyword fields permuted / renamed, also in a dedicated '
+          'stream; '
           'a stream of values with a history: a value is built, eq / ne / lt / gt / hash / == / hash() are '
           'evaluated on it against its partners, 1-3 writes are applied to its symbolic nodes (setitem, '
           'setattr, del, pop, update, clear, append, insert, extend, sort, reverse, rebind on the node or '
@@ -963,8 +1086,7 @@ class C06(Prop):
       'back from the written value through sym_items / sym_values / iteration; the read API itself and the '
       'contents the write paths produce are not part of C06 (C01 / C02)',
   ]
-  assumptions = ['distinct user classes have distinct __qualname__ (else pg.lt does not terminate: F39)',
-                 'dict keys are atoms (no tuple keys); floats are finite']
+  assumptions = ['dict keys are atoms (no tuple keys); floats are finite']
 
   # -- generation -------------------------------------------------------------------------
   def generate(self, rng, tier):
@@ -978,6 +1100,9 @@ class C06(Prop):
     # were evaluated on them (module comment "Values with a history")
     for _ in range(900 if tier == 'quick' else 40000):
       yield g.mut_case()
+    # dedicated stream: objects with keyword fields / dicts bound to a schema at the top
+    for _ in range(400 if tier == 'quick' else 20000):
+      yield g.kw_case(rng.randint(2, 3))
     # dedicated stream: two classes with one qualname
     for _ in range(20 if tier == 'quick' else 200):
       x = normalize(['o', rng.choice(SAME_QUALNAME), [[['s', 'x'], g.atom(False)]]])
@@ -996,8 +1121,11 @@ class C06(Prop):
       for _ in range(300):
         yield {'vals': [rng.choice(pool) for _ in range(3)], 'fam': 'pool3'}
 
-  def model_request(self, case):
-    return {'quals': QUALS, 'vals': case['vals']}
+  def model_request(self, case, ids=None):
+    # `ids`: str(id(cls)) per class - the tie-break of `_type_order` between classes with one
+    # __qualname__ (fix F286); taken from the implementation's process (model_request_with_impl)
+    ids = ids or ['%04d' % c for c in range(len(CLASSES))]
+    return {'quals': QUALS, 'ids': ids, 'dyn': DYN, 'vals': case['vals']}
 
   def effective(self, case, out):
     """A case with a history, with the contents read back from the written value in the place of the
@@ -1009,7 +1137,8 @@ class C06(Prop):
     return case
 
   def model_request_with_impl(self, case, impl_out):
-    return self.model_request(self.effective(case, impl_out))
+    ids = impl_out.get('cls_ids') if isinstance(impl_out, dict) else None
+    return self.model_request(self.effective(case, impl_out), ids)
 
   def warm(self, pg, x, partners):
     """Everything the laws evaluate, on a value that is about to be written (may memoise)."""
@@ -1070,6 +1199,7 @@ class C06(Prop):
     for i, c in enumerate(e['classes']):
       ch[str(i)] = hash(c)
     out['cls_hash'] = ch
+    out['cls_ids'] = [str(id(c)) for c in e['classes']]
     if mut:
       out['post'] = post
     return out
